@@ -13,6 +13,7 @@ package props
 
 import (
 	"fmt"
+	"math"
 	"os"
 	"runtime"
 	"strings"
@@ -84,7 +85,7 @@ func TestExclFree(t *testing.T) {
 				// wake up at the very instant at which somebody else's wait ends
 				c.preSleep = rapid.SampledFrom([]time.Duration{0, 0, 0, time.Microsecond, time.Millisecond, 2 * time.Millisecond}).Draw(t, "preSleep")
 				if strings.Contains(c.style, "After") || c.style == "Options" {
-					c.wait = rapid.SampledFrom([]time.Duration{0, 0, time.Microsecond, time.Millisecond}).Draw(t, "wait")
+					c.wait = rapid.SampledFrom([]time.Duration{0, 0, time.Microsecond, time.Microsecond, time.Millisecond, time.Millisecond, -1, math.MinInt64}).Draw(t, "wait")
 				}
 				if c.style == "Options" {
 					c.skip = rapid.IntRange(0, 4).Draw(t, "skip") == 0
